@@ -234,7 +234,7 @@ func (d *MarchingCanvas) calcFloat1Range(min, max modeling.VectorInt, function s
 			yF := float64(y) / d.cubesPerUnit
 			for x := min.X; x < max.X; x++ {
 				xF := float64(x) / d.cubesPerUnit
-				arr[i] = function(vector3.New(zF, yF, xF))
+				arr[i] = function(vector3.New(xF, yF, zF))
 				i++
 			}
 		}
